@@ -112,7 +112,10 @@ def read_int_token(scan):
     elif lit := scan.match(bin_literal):
         return tokens.IntToken(int(lit, 2))
     elif lit := scan.match(dec_literal):
-        return tokens.IntToken(int(lit, 10))
+        try: return tokens.IntToken(int(lit, 10))
+        except ValueError:
+            # int() refuses very long decimal strings
+            raise LexerError('Integer literal too large', scan.cursor)
 
 ident_pattern = re.compile(r'[a-zA-Z_]\w*')
 keyword_tokens = {
